@@ -51,9 +51,31 @@ class Inst:
         return f"Inst({self.atom})"
 
 
+def encj(v):
+    """nested values (driver atom `J…`): lists / tuples / string-keyed dicts of such, scalars"""
+    if isinstance(v, list):
+        return "[" + ";".join(encj(x) for x in v) + "]"
+    if isinstance(v, tuple):
+        return "(" + ";".join(encj(x) for x in v) + ")"
+    if isinstance(v, dict):
+        if not all(isinstance(k, str) for k in v):
+            raise TypeError(v)
+        return "{" + ";".join(hexs(k.encode()) + ":" + encj(x) for k, x in v.items()) + "}"
+    return enc_scalar(v)
+
+
 def enc(v):
     if isinstance(v, Inst):
         return v.atom
+    if isinstance(v, (list, tuple, dict)):
+        try:
+            return enc_flat(v)
+        except TypeError:
+            return "J" + encj(v)
+    return enc_scalar(v)
+
+
+def enc_flat(v):
     if isinstance(v, list):
         return "L" + ",".join(enc_scalar(x) for x in v)
     if isinstance(v, tuple):
@@ -187,6 +209,63 @@ def cases_schedule(rng, quick):
     yield "_join_bits", _join_bits, [(True, False, True)], 0
     yield "_join_bits", _join_bits, [b"\x01\x00\x01"], 0
     yield "_join_bits", _join_bits, [[None, 1]], 0
+    # --- SchedulesStructure (round 8, W1c): _unpack_schedule / decode / encode
+    from pyplumio.structures import schedules as sch
+    C = getattr(sch, "SchedulesStructure")
+    plain = Inst("S")
+    n = 12 if quick else 200
+    for _ in range(n):
+        k = rng.choice([0, 0, 1, 5])
+        msg = rbytes(rng, k + rng.choice([42, 42, 42, 43, 50, 41, 30, 6, 0]))
+        yield "SchedulesStructure._unpack_schedule", method(C, "_unpack_schedule"), [sinst(_offset=k), bytearray(msg)], 0
+    for _ in range(n):
+        off = rng.choice([0, 0, 1, 3])
+        cnt = rng.choice([0, 1, 1, 2, 3])
+        body = b"".join(bytes([rng.choice([0, 1, 2, 7, 39, 40, 200, rng.randrange(256)]), rng.choice([0, 1, 1, 2, 255])])
+                        + slot_bytes(rng, 1) + rbytes(rng, 42) for _ in range(cnt))
+        msg = rbytes(rng, off) + bytes([rng.randrange(256), rng.choice([0, 0, 1, 250, rng.randrange(256)]), cnt]) + body + rbytes(rng, rng.choice([0, 0, 3]))
+        r = rng.random()
+        if r > 0.6:
+            msg = msg[:rng.randrange(len(msg) + 1)] if r < 0.9 else msg[:off + rng.choice([0, 1, 2, 3])]
+        yield "SchedulesStructure.decode", method(C, "decode"), [plain, bytearray(msg), off, rng.choice(DATAS)], 0
+    for msg, off in ODD_CALLS:
+        yield "SchedulesStructure.decode", method(C, "decode"), [plain, bytearray(msg) if msg is not None else None, off, None], 0
+    names = list(getattr(sch, "SCHEDULES", ("heating",)))
+
+    def day(ln=48, kind=0):
+        if kind == 0:
+            return [bool(rng.getrandbits(1)) for _ in range(ln)]
+        if kind == 1:
+            return [rng.getrandbits(1) for _ in range(ln)]
+        return [rng.choice([0, 1, 1, 2, 3, -1]) for _ in range(ln)]
+
+    def week():
+        r = rng.random()
+        if r < 0.55:
+            return [day() for _ in range(7)]
+        if r < 0.7:
+            return [day(rng.choice([48, 8, 16, 5, 13, 0, 1, 49]), rng.choice([0, 0, 1])) for _ in range(rng.choice([7, 7, 1, 0, 3, 8]))]
+        if r < 0.8:
+            return [day(rng.choice([48, 8]), 2) for _ in range(rng.choice([7, 2]))]
+        if r < 0.85:
+            return tuple(tuple(day()) for _ in range(7))
+        if r < 0.9:
+            return [day(), None, day()]
+        if r < 0.95:
+            return [day(8, 2), None, day()]
+        return rng.choice([None, [], [[]], 5, [5], [[True] * 8, 7]])
+
+    for _ in range(3 * n):
+        d = {"type": rng.choice(names + names + ["nope", 3, None]), "switch": rng.choice([0, 1, 1, True, False, 2, 255, 256, -1, None]),
+             "parameter": rng.choice([0, 5, 20, 255, 256, -3, True, rng.randrange(256)]), "schedule": week()}
+        r = rng.random()
+        if r < 0.12:
+            d.pop(rng.choice(list(d)))
+        elif r < 0.2:
+            d = dict(reversed(list(d.items())))
+        yield "SchedulesStructure.encode", method(C, "encode"), [plain, d], 0
+    yield "SchedulesStructure.encode", method(C, "encode"), [plain, {}], 0
+    yield "SchedulesStructure.encode", method(C, "encode"), [plain, None], 0
 
 
 def cases_uid(rng, quick):
